@@ -116,6 +116,29 @@ func Int(x J) int { return int(x.(float64)) }
 // Variables are named V<k>; the "_G" prefix can be changed with the namer.
 func Render(t J) string { return RenderWith(t, func(k int) string { return "V" + strconv.Itoa(k) }) }
 
+// StringLists makes Render write a proper list of one-letter atoms as a double-quoted string literal (the same term under
+// double_quotes = chars, but a different notation and, in this implementation, a different representation).
+var StringLists bool
+
+func charString(t J) (string, bool) {
+	var sb strings.Builder
+	for {
+		a := t.([]J)
+		if a[0].(string) == "a" && a[1].(string) == "[]" {
+			return sb.String(), sb.Len() > 0
+		}
+		if a[0].(string) != "c" || a[1].(string) != "." || len(a[2].([]J)) != 2 {
+			return "", false
+		}
+		h := a[2].([]J)[0].([]J)
+		if h[0].(string) != "a" || len(h[1].(string)) != 1 || h[1].(string)[0] < 'a' || h[1].(string)[0] > 'z' {
+			return "", false
+		}
+		sb.WriteString(h[1].(string))
+		t = a[2].([]J)[1]
+	}
+}
+
 func RenderWith(t J, vname func(int) string) string {
 	a := t.([]J)
 	switch a[0].(string) {
@@ -147,6 +170,11 @@ func RenderWith(t J, vname func(int) string) string {
 		args := a[2].([]J)
 		f := a[1].(string)
 		if f == "." && len(args) == 2 {
+			if StringLists {
+				if str, ok := charString(t); ok {
+					return strconv.Quote(str)
+				}
+			}
 			var sb strings.Builder
 			sb.WriteString("[")
 			sb.WriteString(RenderWith(args[0], vname))
